@@ -458,6 +458,12 @@ ARGS_LOOP:
 		// handle commands and subcommands
 		for k, v := range currentProgramNode.ChildCommands {
 			if k == iterator.Value() {
+				if completionMode == "" {
+					// Text and unknown options seen before the command are part of the
+					// result of the selected command, don't lose them.
+					v.ChildText = append(v.ChildText, currentProgramNode.ChildText...)
+					v.UnknownOptions = append(v.UnknownOptions, currentProgramNode.UnknownOptions...)
+				}
 				currentProgramNode = v
 				continue ARGS_LOOP
 			}
